@@ -748,6 +748,75 @@ theorem eventually_delivered (hp : cfg.policy ≠ .conflating) (hc : e.Continues
 
 end Live
 
+/-! ### the conflating policy: the merged latest state -/
+
+/-- invariant of the conflating policy (for a scalar output: merging = keeping the last value) -/
+def ConflInv (s : St) : Prop :=
+  (s.deque = [] ∨ ∃ x, s.deque = [x] ∧ s.accepted.getLast? = some x) ∧
+  (flat s.delivered ++ s.deque).Sublist s.accepted
+
+theorem conflInv_step {cfg : Cfg} (hp : cfg.policy = .conflating) {s s' : St} {l : Label} (h : ConflInv s)
+    (hs : step cfg s l = some s') : ConflInv s' := by
+  obtain ⟨h1, h2⟩ := h
+  have hacc : ∀ i k v, ConflInv (accept cfg s i k v) := by
+    intro i k v
+    unfold accept
+    simp only [hp]
+    refine ⟨Or.inr ⟨(i, v), rfl, by simp⟩, ?_⟩
+    have : (flat s.delivered).Sublist s.accepted :=
+      List.Sublist.trans (List.sublist_append_left _ _) h2
+    exact List.Sublist.append this (List.Sublist.refl _)
+  have hsame : ∀ t : St, t.deque = s.deque → t.accepted = s.accepted → t.delivered = s.delivered → ConflInv t := by
+    intro t e1 e2 e3
+    unfold ConflInv; rw [e1, e2, e3]; exact ⟨h1, h2⟩
+  cases l with
+  | start =>
+    step_cases hs
+    refine ⟨Or.inl rfl, ?_⟩
+    simp only [List.append_nil]
+    exact List.Sublist.trans (List.sublist_append_left _ _) h2
+  | enter i k v => step_cases hs <;> exact hsame _ rfl rfl rfl
+  | check i => step_cases hs <;> exact hsame _ rfl rfl rfl
+  | admitQ i =>
+    step_cases hs <;> first | exact hsame _ rfl rfl rfl | exact hacc _ _ _
+  | wake i =>
+    step_cases hs <;> first | exact hsame _ rfl rfl rfl | exact hacc _ _ _ | exact ⟨h1, h2⟩
+  | mark i =>
+    step_cases hs
+    obtain ⟨m1, m2, m3, _⟩ := markFlag_fields s
+    all_goals (apply hsame <;> (try simp only) <;> (try split) <;> simp [m1, m2, m3])
+  | beginCycle dt => step_cases hs <;> exact hsame _ rfl rfl rfl
+  | pop =>
+    step_cases hs
+    · exact hsame _ rfl rfl rfl
+    · rename_i v rest hq hd
+      exact absurd hq (by rw [hp]; simp)
+    · rename_i v rest hd _
+      refine ⟨Or.inl rfl, ?_⟩
+      simp only [flat_append, flat_single, List.append_nil]
+      rw [hd] at h2; exact h2
+  | rearm =>
+    step_cases hs
+    obtain ⟨m1, m2, m3, _⟩ := markFlag_fields s
+    all_goals (apply hsame <;> (try simp only) <;> (try split) <;> simp [m1, m2, m3])
+  | reqStop => step_cases hs; exact hsame _ rfl rfl rfl
+  | closeBegin => step_cases hs; exact hsame _ rfl rfl rfl
+  | queueStop =>
+    step_cases hs
+    refine ⟨Or.inl rfl, ?_⟩
+    simp only [List.append_nil]
+    exact List.Sublist.trans (List.sublist_append_left _ _) h2
+
+/-- **C16 (conflating).** With the conflating policy at most one merged state is pending, it is the
+    most recently accepted value, and what was delivered is an in-order subsequence of what was
+    accepted (every delivery is the latest state at the time of its cycle). -/
+theorem conflating_delivers_latest {cfg : Cfg} (hp : cfg.policy = .conflating) {s : St} (h : Reach cfg s) :
+    (s.deque = [] ∨ ∃ x, s.deque = [x] ∧ s.accepted.getLast? = some x) ∧
+    (flat s.delivered ++ s.deque).Sublist s.accepted := by
+  induction h with
+  | init => exact ⟨Or.inl rfl, by simp [flat]⟩
+  | step l _ hs ih => exact conflInv_step hp ih hs
+
 /-! ### non-vacuity -/
 
 /-- capacity 1, two producers: 1 is admitted and marks; 2 parks in `send_blocking`; the consumer
